@@ -18,17 +18,23 @@ EXCLUDED_ENDINGS = ('out-of-fuel', 'stack-overflow')
 
 def known_iv(iv_log):
     """Known_C02_iv_guard: an induction-variable elimination rewrote `i op g` into `m*i+c < m*g+c` where that is not an
-    equivalence: the guard is not `<`, the multiplier is not a positive constant, or the new bound m*g+c / the new initial
-    value m*i0+c is not known to be representable (a constant that fits 32 bits): the code computes both in wrapping
-    arithmetic without a check."""
+    equivalence: the guard is not `<`, the multiplier is not a positive constant, or one of the new bound m*g+c, the new
+    initial value m*i0+c and the new value m*i_exit+c at the value with which the loop is left (i_exit = i0 + inc*K,
+    K the trip count) is not known to be representable (constants that fit 32 bits): the code computes all of them in
+    wrapping arithmetic without a check."""
     def in32(x):
         return -2 ** 31 <= x <= 2 ** 31 - 1
     for e in iv_log:
         op, m = e[0], e[1]
-        c, g, i0 = (e + [None, None, None])[2:5] if isinstance(e, list) else (None, None, None)
+        c, g, i0, inc = (e + [None, None, None, None])[2:6] if isinstance(e, list) else (None, None, None, None)
         if op != 0 or m is None or m <= 0:
             return True
         if c is None or g is None or i0 is None or not in32(m * g + c) or not in32(m * i0 + c):
+            return True
+        if inc is None or inc <= 0:
+            return True
+        trips = 0 if i0 >= g else (g - i0 + inc - 1) // inc
+        if not in32(m * (i0 + inc * trips) + c):
             return True
     return False
 
